@@ -106,7 +106,29 @@ def semantic_case(idx, payload):
         return res
     c = rng.choice(classes)
     kind = rng.choice(["ctor-shaped-method", "ctor-shaped-method", "misspelled-ctor", "operator-shape", "unknown-dunder", "static-const",
-                       "typedef-unknown-template"])
+                       "typedef-unknown-template", "default-before-nondefault"])
+    if kind == "default-before-nondefault":
+        # `f(double force = 7041, int times)`: a default value in front of a parameter without one — out of dialect for the MATLAB
+        # generator (its overload expansion asserts trailing defaults): it must refuse, or else the value must be used
+        from common import impl_matlab
+        shape = rng.choice(["func", "method", "static", "ctor"])
+        sig = "(double force = 7041, int times%s)" % rng.choice(["", ", string tag", ", double w = 2"])
+        decl = {"func": "void shake%s;" % sig, "method": "class Shaker9 { Shaker9(); void shake%s const; };" % sig,
+                "static": "class Shaker9 { Shaker9(); static void Shake%s; };" % sig, "ctor": "class Shaker9 { Shaker9%s; };" % sig}[shape]
+        g2 = gen.Gen(rng, gen.Cfg(max_decls=2, max_members=3, max_depth=1, rich_defaults=False, allow_dunder=False, p_template=0.0, matlab_safe=True, typedef_same_ns=True))
+        base = gen.layout(rng, gen.lexemes(g2.gen_module()), 'space')
+        text = base + "\n" + decl + "\n"
+        res.update(kind=kind, text=text)
+        if impl_matlab([base], "m", [], False)[0] != "ok":
+            res["kind"] = "none"
+            return res
+        out = impl_matlab([text], "m", [], False)
+        res["impl_accepts"] = out[0] == "ok"
+        if out[0] == "ok" and not any("7041" in v for v in out[1].values()):
+            res["bad"] = dict(kind="spec", what="the MATLAB generator accepts a %s whose defaulted parameter stands before a parameter without default, "
+                              "and the default value is silently dropped" % shape, input=text, corruption=kind)
+        return res
+
     if kind == "typedef-unknown-template":
         # `typedef Tmpl<Args> Alias;` whose template name is misspelled (one letter lost, or the wrong namespace): the name
         # denotes nothing in the module, so no declaration can account for the typedef — both generators must refuse
